@@ -277,7 +277,14 @@ class TorchDistribution:
         else:
             action = action.reshape(self.distribution.batch_shape)
 
-        _action = action if not self.squash_output else self.sampled_action
+        # With squashing the density is evaluated at the pre-squash value of the
+        # GIVEN action (not at the latest sample, which belongs to another action
+        # once stored actions are re-evaluated)
+        if self.squash_output:
+            eps = torch.finfo(action.dtype).eps
+            _action = torch.atanh(action.clamp(min=-1.0 + eps, max=1.0 - eps))
+        else:
+            _action = action
 
         log_prob = self._handler.log_prob(self.distribution, _action)
 
